@@ -235,11 +235,26 @@ pub struct CmdSpec {
     pub display_order: Option<usize>,
     /// external subcommand value parser: false = OsString (default), true = String
     pub external_string: bool,
+    /// settings in effect here because a level above declared them (clap propagates its "global"
+    /// settings to every subcommand below); read by `has`, never passed to the builder
+    pub inherited: Vec<Setting>,
 }
 
 impl CmdSpec {
+    /// record at every level the propagating settings declared above it
+    pub fn push_down(&mut self, which: &[Setting]) {
+        let here: Vec<Setting> = which.iter().copied().filter(|s| self.has(*s)).collect();
+        for sub in self.subs.iter_mut() {
+            for s in &here {
+                if !sub.has(*s) {
+                    sub.inherited.push(*s);
+                }
+            }
+            sub.push_down(which);
+        }
+    }
     pub fn has(&self, s: Setting) -> bool {
-        self.settings.contains(&s)
+        self.settings.contains(&s) || self.inherited.contains(&s)
     }
     pub fn set(&mut self, s: Setting) {
         if !self.has(s) {
@@ -767,6 +782,9 @@ fn brief_into(c: &CmdSpec, depth: usize, s: &mut String) {
     }
     if !c.settings.is_empty() {
         s.push_str(&format!(" {:?}", c.settings));
+    }
+    if !c.inherited.is_empty() {
+        s.push_str(&format!(" inherited{:?}", c.inherited));
     }
     macro_rules! opt {
         ($f:ident) => {
